@@ -23,8 +23,11 @@ TRead       == Is("Read") /\ Read(E.conn, E.oid) /\ cache'[E.conn][E.oid] = E.se
 TReadEvict  == /\ Is("Read") /\ (~InFinish \/ start[E.conn] < ctid) /\ pc[E.conn] = "txn" /\ cache[E.conn][E.oid] # 0 /\ E.oid \notin dirty[E.conn]
                /\ E.serial = SerialAt(E.oid, start[E.conn]) /\ E.serial # 0
                /\ cache' = [cache EXCEPT ![E.conn][E.oid] = E.serial]
-               /\ UNCHANGED <<hist, sLtid, start, inval, iLtid, pc, polled, dirty, commitLock, pending, ctid, pool, closes>>
+               /\ UNCHANGED <<hist, sLtid, start, inval, iLtid, pc, polled, dirty, rc, commitLock, pending, ctid, pool, closes>>
 TWrite      == Is("Write") /\ (Write(E.conn, E.oid) \/ (E.oid \in dirty[E.conn] /\ UNCHANGED vars))
+TReadCurrent == Is("ReadCurrent") /\ ReadCurrent(E.conn, E.oid)
+\* a savepoint flushes modified objects to the connection's private TmpStore: nothing shared changes
+TSavepoint  == Is("Savepoint") /\ pc[E.conn] = "txn" /\ UNCHANGED vars
 TBeginVote  == Is("BeginVote") /\ BeginVote(E.conn) /\ (E.ok <=> pc'[E.conn] = "voted")
 OidSet(seq) == {seq[i] : i \in 1..Len(seq)}
 TUndoVote   == Is("UndoVote") /\ UndoVote(E.conn, OidSet(E.oids), E.ok)
@@ -36,7 +39,7 @@ TPublish    == Is("Publish") /\ Publish(E.conn) /\ sLtid' = E.tid
 \* abort of a running transaction; a second abort after a failed commit (or of a transaction that never
 \* joined) is a stutter
 TAbort      == Is("AbortTxn") /\ (AbortTxn(E.conn) \/ (pc[E.conn] \in {"idle", "closed"} /\ UNCHANGED vars))
-TNext == TOpenNew \/ TOpenPooled \/ TClose \/ TPollRead \/ TPollApply \/ TRead \/ TReadEvict \/ TWrite \/ TBeginVote
+TNext == TOpenNew \/ TOpenPooled \/ TClose \/ TPollRead \/ TPollApply \/ TRead \/ TReadEvict \/ TWrite \/ TReadCurrent \/ TSavepoint \/ TBeginVote
          \/ TUndoVote \/ TUndoAbort \/ TFinish \/ TDeliver \/ TPublish \/ TAbort
 Accepted == l = Len(Tr) + 1
 Report == (Accepted => PrintT(<<"ACCEPT", t>>)) /\ (IOEnv.TRACE_VERBOSE = "1" => PrintT(<<"AT", t, l>>))
